@@ -2,10 +2,201 @@ import Ptn.C05.Core
 import Ptn.C05.Tree
 import Ptn.C05.Discipline
 import Ptn.C05.Heff
+import Ptn.C05.Value
+import Ptn.C05.Projected
+import Ptn.C05.ProjectedTree
 /-! Property theorems for C05.  `Core.lean`: duration totals of the three schedules for arbitrary
 segment lists (per segment edge, under the hypotheses `Nodup` / last-two-adjacent).  `Tree.lean`:
 the same totals for every well-formed tree with the segments computed from the C17 model of the
 update path (`first_order_tree`, `second_order_tree`, `two_site_tree`) — no hypothesis about the
 segments left: every node of the tree, every edge of the tree.  `Discipline.lean`: the cache-freshness
 discipline — in every one of the three sweeps, on every well-formed tree, no local update or block
-rebuild ever reads a stale environment block (`reads_fresh_*`, `discipline_invariant`). -/
+rebuild ever reads a stale environment block (`reads_fresh_*`, `discipline_invariant`).
+`Heff.lean`: the effective Hamiltonians as leg graphs.  `Value.lean`, `Projected.lean`, `ProjectedTree.lean`:
+the VALUE of those leg graphs over every commutative semiring (`site_heff_value`, `link_heff_value`,
+`two_site_heff_value` and their `_blocks` forms; `site_heff_is_projected_hamiltonian`: `H_eff = E† H E` at the
+record level; `site_heff_projected_tree_root_partial`: the same on a whole tree for the root site).
+
+Below: non-vacuity examples for the value-level theorems (concrete programs that satisfy every hypothesis). -/
+namespace Ptn.C05.Heff
+open Ptn.C04 Ptn.Ein
+
+/-- an integer tensor that reads all of its legs -/
+def demoT (legs : List Leg) : Asg Leg → Int := fun σ => (legs.map fun l => (σ l : Int)).sum + 1
+
+theorem demoT_local (legs : List Leg) : DependsOn (· ∈ legs) (demoT legs) := by
+  intro σ τ h
+  simp only [demoT]
+  congr 2
+  apply List.map_congr_left
+  intro l hl
+  rw [h l hl]
+
+def demoLeaf (legs : List Leg) : Expr Leg Int := Expr.leaf legs (demoT legs)
+
+theorem demoLeaf_swf (legs : List Leg) (h : legs.Nodup) : (demoLeaf legs).SWF := ⟨h, demoT_local legs⟩
+
+/-! ### `site_heff_value`: node 9 with parent 5 and child 1, operator node with the same neighbours -/
+
+def demoHam : Node := ⟨some 5, [1]⟩
+/-- the program the code runs: `tensordot(tensordot(W, block 5), block 1)` -/
+def demoSite : Expr Leg Int :=
+  Expr.dot (Expr.dot (demoLeaf (gOpT 9 demoHam).legs) (demoLeaf (blockLegs 5 9)) [(Leg.gOp 9 5, Leg.gOp 5 9)])
+    (demoLeaf (blockLegs 1 9)) [(Leg.gOp 9 1, Leg.gOp 1 9)]
+
+example : getEffectiveSingleSiteHamiltonianNodes demoHam demoHam (gOpT 9 demoHam) (fun n => some (gBlock n 9 [])) =
+    some ⟨[.gBra 5 9, .gBra 1 9, .gOpOut 9], [.gKet 5 9, .gKet 1 9, .gOpIn 9],
+      [(.gOp 9 5, .gOp 5 9), (.gOp 9 1, .gOp 1 9)]⟩ := by decide
+
+example : demoHam.nbrs.Nodup ∧ 9 ∉ demoHam.nbrs ∧ demoSite.SWF ∧
+    DependsOn (· ∈ (gOpT 9 demoHam).legs) (demoT (gOpT 9 demoHam).legs) ∧
+    (∀ n ∈ demoHam.nbrs, DependsOn (· ∈ blockLegs n 9) (demoT (blockLegs n 9))) ∧
+    demoSite.binds.Perm [(.gOp 9 5, .gOp 5 9), (.gOp 9 1, .gOp 1 9)] ∧
+    (∀ σ, demoSite.leafProd σ =
+      demoT (gOpT 9 demoHam).legs σ * prodL (demoHam.nbrs.map fun n => demoT (blockLegs n 9) σ)) := by
+  refine ⟨by decide, by decide, ?_, demoT_local _, fun n _ => demoT_local _, by decide, ?_⟩
+  · refine ⟨⟨demoLeaf_swf _ (by decide), demoLeaf_swf _ (by decide), by decide, by decide, by decide, by decide⟩,
+      demoLeaf_swf _ (by decide), by decide, by decide, by decide, by decide⟩
+  · intro σ
+    simp [demoSite, demoLeaf, Expr.leafProd, Expr.leaves, prodL, demoHam, Node.nbrs]
+
+/-! ### `link_heff_value`: the link between parent 7 and child 4 -/
+
+def demoLink : Expr Leg Int :=
+  Expr.dot (demoLeaf (blockLegs 7 4)) (demoLeaf (blockLegs 4 7)) [(Leg.gOp 7 4, Leg.gOp 4 7)]
+
+example : (7 : Nat) ≠ 4 ∧ demoLink.SWF ∧ DependsOn (· ∈ blockLegs 7 4) (demoT (blockLegs 7 4)) ∧
+    DependsOn (· ∈ blockLegs 4 7) (demoT (blockLegs 4 7)) ∧
+    demoLink.binds.Perm ([] ++ [] ++ [(Leg.gOp 7 4, Leg.gOp 4 7)]) ∧
+    (∀ σ, demoLink.leafProd σ = demoT (blockLegs 7 4) σ * demoT (blockLegs 4 7) σ) := by
+  refine ⟨by decide, ⟨demoLeaf_swf _ (by decide), demoLeaf_swf _ (by decide), by decide, by decide, by decide,
+    by decide⟩, demoT_local _, demoT_local _, by decide, ?_⟩
+  intro σ
+  simp [demoLink, demoLeaf, Expr.leafProd, Expr.leaves, prodL]
+
+/-! ### `two_site_heff_value`: target 1 (parent 0, children 2 and 3), next 2 (parent 1, children 4 and 5) -/
+
+def demoHamT : Node := ⟨some 0, [2, 3]⟩
+def demoHamX : Node := ⟨some 1, [4, 5]⟩
+def demoTwoNode : Node := ⟨some 0, [3, 5, 4]⟩
+/-- target block (operator of 1 with the blocks of 0 and 3), next block (operator of 2 with the blocks of 4 and 5),
+joined along the bond 1 — 2 -/
+def demoTwo : Expr Leg Int :=
+  Expr.dot
+    (Expr.dot (Expr.dot (demoLeaf (gOpT 1 demoHamT).legs) (demoLeaf (blockLegs 0 1)) [(Leg.gOp 1 0, Leg.gOp 0 1)])
+      (demoLeaf (blockLegs 3 1)) [(Leg.gOp 1 3, Leg.gOp 3 1)])
+    (Expr.dot (Expr.dot (demoLeaf (gOpT 2 demoHamX).legs) (demoLeaf (blockLegs 4 2)) [(Leg.gOp 2 4, Leg.gOp 4 2)])
+      (demoLeaf (blockLegs 5 2)) [(Leg.gOp 2 5, Leg.gOp 5 2)])
+    [(Leg.gOp 1 2, Leg.gOp 2 1)]
+
+example : getEffectiveTwoSiteHamiltonian demoHamT demoHamX demoTwoNode (gOpT 1 demoHamT) (gOpT 2 demoHamX) 1 2
+    (fun k => if (k.2 = 1 ∧ k.1 ∈ [0, 3]) ∨ (k.2 = 2 ∧ k.1 ∈ [4, 5]) then some (gBlock k.1 k.2 []) else none) =
+    some ⟨[.gBra 0 1, .gBra 3 1, .gBra 5 2, .gBra 4 2, .gOpOut 1, .gOpOut 2],
+          [.gKet 0 1, .gKet 3 1, .gKet 5 2, .gKet 4 2, .gOpIn 1, .gOpIn 2],
+          [(.gOp 1 0, .gOp 0 1), (.gOp 1 3, .gOp 3 1), (.gOp 2 4, .gOp 4 2), (.gOp 2 5, .gOp 5 2), (.gOp 1 2, .gOp 2 1)]⟩ := by
+  decide
+
+example : demoHamT.nbrs.Nodup ∧ demoHamX.nbrs.Nodup ∧ 2 ∈ demoHamT.nbrs ∧ 1 ∈ demoHamX.nbrs ∧
+    (∀ n ∈ demoHamX.nbrs, n ∉ demoHamT.nbrs) ∧
+    demoTwoNode.nbrs.Perm (demoHamT.nbrs.filter (· ≠ 2) ++ demoHamX.nbrs.filter (· ≠ 1)) ∧
+    demoTwo.SWF ∧
+    demoTwo.binds.Perm [(.gOp 1 0, .gOp 0 1), (.gOp 1 3, .gOp 3 1), (.gOp 2 4, .gOp 4 2), (.gOp 2 5, .gOp 5 2),
+      (.gOp 1 2, .gOp 2 1)] ∧
+    (∀ σ, demoTwo.leafProd σ = demoT (gOpT 1 demoHamT).legs σ * (demoT (gOpT 2 demoHamX).legs σ *
+      (prodL ((demoHamT.nbrs.filter (· ≠ 2)).map fun n => demoT (blockLegs n 1) σ) *
+       prodL ((demoHamX.nbrs.filter (· ≠ 1)).map fun n => demoT (blockLegs n 2) σ)))) := by
+  refine ⟨by decide, by decide, by decide, by decide, by decide, by decide, ?_, by decide, ?_⟩
+  · have hT : (Expr.dot (Expr.dot (demoLeaf (gOpT 1 demoHamT).legs) (demoLeaf (blockLegs 0 1))
+        [(Leg.gOp 1 0, Leg.gOp 0 1)]) (demoLeaf (blockLegs 3 1)) [(Leg.gOp 1 3, Leg.gOp 3 1)]).SWF :=
+      ⟨⟨demoLeaf_swf _ (by decide), demoLeaf_swf _ (by decide), by decide, by decide, by decide, by decide⟩,
+        demoLeaf_swf _ (by decide), by decide, by decide, by decide, by decide⟩
+    have hX : (Expr.dot (Expr.dot (demoLeaf (gOpT 2 demoHamX).legs) (demoLeaf (blockLegs 4 2))
+        [(Leg.gOp 2 4, Leg.gOp 4 2)]) (demoLeaf (blockLegs 5 2)) [(Leg.gOp 2 5, Leg.gOp 5 2)]).SWF :=
+      ⟨⟨demoLeaf_swf _ (by decide), demoLeaf_swf _ (by decide), by decide, by decide, by decide, by decide⟩,
+        demoLeaf_swf _ (by decide), by decide, by decide, by decide, by decide⟩
+    exact ⟨hT, hX, by decide, by decide, by decide, by decide⟩
+  · intro σ
+    have hf1 : demoHamT.nbrs.filter (· ≠ 2) = [0, 3] := by decide
+    have hf2 : demoHamX.nbrs.filter (· ≠ 1) = [4, 5] := by decide
+    rw [hf1, hf2]
+    simp only [demoTwo, demoLeaf, Expr.leafProd, Expr.leaves, prodL, List.map_cons, List.map_nil,
+      List.cons_append, List.nil_append, mul_one]
+    ring
+
+/-! ### `site_heff_value_blocks`, `site_heff_is_projected_hamiltonian`, `site_heff_projected_tree_root_partial`:
+root 0 with the leaf children 1 and 2; the operator node lists the children as (2, 1) -/
+
+def demoKids : List Tree := [Tree.node 1 [], Tree.node 2 []]
+def demoKet (c : Nat) : Expr Leg Int := demoLeaf (gKetT c ⟨some 0, []⟩).legs
+def demoOp (c : Nat) : Expr Leg Int := demoLeaf (gOpT c ⟨some 0, []⟩).legs
+def demoBra (c : Nat) : Expr Leg Int := demoLeaf (gBraT c ⟨some 0, []⟩).legs
+def demoW0 : Expr Leg Int := demoLeaf (gOpT 0 ⟨none, [2, 1]⟩).legs
+/-- the cached block of the leaf `c`: (ket · operator) · bra, the program of `contract_leaf` -/
+def demoBlk (c : Nat) : Expr Leg Int :=
+  Expr.dot (Expr.dot (demoKet c) (demoOp c) [physIn c]) (demoBra c) [physOut c]
+/-- the program of `contract_all_except_node` on top of the block programs -/
+def demoHeff : Expr Leg Int :=
+  Expr.dot (Expr.dot demoW0 (demoBlk 2) [(Leg.gOp 0 2, Leg.gOp 2 0)]) (demoBlk 1) [(Leg.gOp 0 1, Leg.gOp 1 0)]
+/-- ket environment, dense TTNO, bra environment -/
+def demoE : Expr Leg Int := Expr.dot (demoKet 1) (demoKet 2) []
+def demoH : Expr Leg Int :=
+  Expr.dot (Expr.dot demoW0 (demoOp 1) [(Leg.gOp 0 1, Leg.gOp 1 0)]) (demoOp 2) [(Leg.gOp 0 2, Leg.gOp 2 0)]
+def demoB : Expr Leg Int := Expr.dot (demoBra 1) (demoBra 2) []
+
+example : getEffectiveSingleSiteHamiltonianNodes ⟨none, demoKids.map Tree.id⟩ ⟨none, [2, 1]⟩ (gOpT 0 ⟨none, [2, 1]⟩)
+    (fun n => soKidBlock demoKids 0 (n, 0)) =
+    some ⟨[.gBra 1 0, .gBra 2 0, .gOpOut 0], [.gKet 1 0, .gKet 2 0, .gOpIn 0],
+      [physOut 2, physIn 2, (.gOp 0 2, .gOp 2 0), physOut 1, physIn 1, (.gOp 0 1, .gOp 1 0)]⟩ := by decide
+
+theorem demoBlk_swf (c : Nat) : (demoBlk c).SWF := by
+  refine ⟨⟨demoLeaf_swf _ ?_, demoLeaf_swf _ ?_, ?_, ?_, ?_, ?_⟩, demoLeaf_swf _ ?_, ?_, ?_, ?_, ?_⟩ <;>
+    simp [demoKet, demoOp, demoBra, demoLeaf, gKetT, gOpT, gBraT, T.fresh, Node.nbrs, Expr.labels, Expr.free,
+      physIn, physOut]
+
+/-- every hypothesis of `site_heff_projected_tree_root_partial` (hence of the record-level theorem
+`site_heff_is_projected_hamiltonian` it instantiates), all dimensions 2 -/
+example : (Tree.node 0 demoKids).ids.Nodup ∧ ([2, 1] : List Nat).Perm (demoKids.map Tree.id) ∧
+    demoHeff.SWF ∧ demoE.WF ∧ demoH.WF ∧ demoB.WF ∧
+    (∀ l ∈ demoE.labels, l ∉ demoH.labels) ∧ (∀ l ∈ demoE.labels, l ∉ demoB.labels) ∧
+    (∀ l ∈ demoH.labels, l ∉ demoB.labels) ∧
+    demoHeff.binds.Perm
+      [physOut 2, physIn 2, (.gOp 0 2, .gOp 2 0), physOut 1, physIn 1, (.gOp 0 1, .gOp 1 0)] ∧
+    (unordL demoE.binds).Perm (unordL ((demoKids.flatMap Tree.edges).map fun e => ketEdge e.1 e.2)) ∧
+    (unordL demoH.binds).Perm (unordL ((Tree.node 0 demoKids).edges.map fun e => opEdge e.1 e.2)) ∧
+    (unordL demoB.binds).Perm (unordL ((demoKids.flatMap Tree.edges).map fun e => braEdge e.1 e.2)) ∧
+    (∀ n ∈ Tree.idsL demoKids, Leg.gKetPhys n ∈ demoE.free ∧ Leg.gOpIn n ∈ demoH.free ∧
+      Leg.gOpOut n ∈ demoH.free ∧ Leg.gBraPhys n ∈ demoB.free) ∧
+    (∀ p ∈ projSpec ((Tree.idsL demoKids).map physOut) ((Tree.idsL demoKids).map physIn) demoE.binds demoH.binds
+      demoB.binds, (fun _ : Leg => 2) p.1 = (fun _ : Leg => 2) p.2) ∧
+    (∀ σ, demoHeff.leafProd σ = demoE.leafProd σ * demoH.leafProd σ * demoB.leafProd σ) := by
+  have hW : demoW0.SWF := demoLeaf_swf _ (by decide)
+  have hE : demoE.SWF := ⟨demoLeaf_swf _ (by decide), demoLeaf_swf _ (by decide), by decide, by decide, by decide,
+    by decide⟩
+  have hB : demoB.SWF := ⟨demoLeaf_swf _ (by decide), demoLeaf_swf _ (by decide), by decide, by decide, by decide,
+    by decide⟩
+  have hH : demoH.SWF := ⟨⟨hW, demoLeaf_swf _ (by decide), by decide, by decide, by decide, by decide⟩,
+    demoLeaf_swf _ (by decide), by decide, by decide, by decide, by decide⟩
+  have he : demoHeff.SWF := ⟨⟨hW, demoBlk_swf 2, by decide, by decide, by decide, by decide⟩, demoBlk_swf 1,
+    by decide, by decide, by decide, by decide⟩
+  refine ⟨by decide, by decide, he, hE.wf, hH.wf, hB.wf, by decide, by decide, by decide, by decide, by decide,
+    by decide, by decide, by decide, fun _ _ => rfl, ?_⟩
+  intro σ
+  simp only [demoHeff, demoBlk, demoE, demoH, demoB, demoW0, demoKet, demoOp, demoBra, demoLeaf, Expr.leafProd,
+    Expr.leaves, prodL, List.map_cons, List.map_nil, List.cons_append, List.nil_append, mul_one]
+  ring
+
+/-- the hypotheses of `site_heff_value_blocks` for the same program: the blocks are the programs `demoBlk` -/
+example : Expr.LabelsDisjoint (demoW0 :: [2, 1].map demoBlk) ∧ (∀ n ∈ [2, 1], (demoBlk n).WF) ∧
+    (∀ n ∈ [2, 1], (demoBlk n).binds.Perm (soBbOf demoKids n)) ∧
+    (∀ σ, demoHeff.leafProd σ = demoT (gOpT 0 ⟨none, [2, 1]⟩).legs σ * Expr.leafProdL ([2, 1].map demoBlk) σ) := by
+  refine ⟨?_, fun n _ => (demoBlk_swf n).wf, by decide, ?_⟩
+  · simp only [Expr.LabelsDisjoint, List.map_cons, List.map_nil, List.pairwise_cons, List.mem_cons,
+      List.not_mem_nil, or_false, forall_eq_or_imp, forall_eq, false_imp_iff, implies_true, List.Pairwise.nil,
+      and_true]
+    decide
+  · intro σ
+    simp only [demoHeff, demoBlk, demoW0, demoKet, demoOp, demoBra, demoLeaf, Expr.leafProd, Expr.leafProdL,
+      Expr.leaves, prodL, List.map_cons, List.map_nil, List.cons_append, List.nil_append, mul_one]
+    ring
+
+end Ptn.C05.Heff
